@@ -15,7 +15,7 @@ import math
 import numpy as np
 from scipy.special import erfc, ndtri
 
-from vmon import contracts
+from vmon import contracts, world
 
 PROPERTY = 'C08'
 RULE = ('priors drawn from a seeded generator: bounds in either order over +-150 decades, widths '
@@ -36,10 +36,10 @@ BUDGET = {
 REQUIRED = dict(monitors=['contract:uniform.sample', 'contract:gaussian.sample', 'contract:prior.prior',
                           'uniform-inverse-cdf', 'gaussian-roundtrip-cdf', 'text-equals-direct',
                           'default-prior', 'monotone', 'lin-equivalence', 'default-prior-of-own-bounds',
-                          'text-read-again-equals-direct'],
+                          'text-read-again-equals-direct', 'clone:same-class-and-space', 'clone:same-map'],
                 classes=['Uniform', 'LogUniform', 'Gaussian', 'LogGaussian', 'bounds-reversed', 'u=0', 'u=1',
                          'set_bounds-on-live-object', 'text:first-object-retuned', 'modify_bounds:NPoint',
-                         'modify_bounds:Isothermal'])
+                         'modify_bounds:Isothermal', 'clone:deepcopy', 'clone:pickle', 'clone:pickle2', 'clone:copy'])
 
 
 def classify(f):
@@ -161,6 +161,32 @@ def wl_uniform(ctx, rng):
                   bounds=(a2, b2), after_set_bounds=True, first=(a, b))
         ctx.close('boundaries', p.boundaries(), (min(a2, b2), max(a2, b2)), 0.0, after_set_bounds=True)
         check_monotone(ctx, 'after-set_bounds', u, x2)
+    if rng.random() < 0.5:
+        judge_clone(ctx, rng, p, u)
+
+
+
+def judge_clone(ctx, rng, p, u):
+    """The same prior reached by another route -- ``copy.copy`` / ``copy.deepcopy`` / a pickle round trip (what a
+    sampler that farms the prior transform out to worker processes gets): it has to be the same map in the same space.
+    ``sample`` / ``prior`` of the copy run under the same contracts (its declaration travels with it)."""
+    from taurex.core.priors import PriorMode
+    how = ['deepcopy', 'pickle', 'pickle2', 'copy'][rng.integers(0, 4)]
+    q = world.clone(p, how)
+    ctx.observe('clone:' + how)
+    log = type(p).__name__.startswith('Log')
+    ctx.check('clone:same-class-and-space', type(q) is type(p) and q.priorMode is (PriorMode.LOG if log else PriorMode.LINEAR),
+              how=how, cls=type(p).__name__, mode=str(q.priorMode))
+    with np.errstate(over='ignore'):
+        a = np.array([p.sample(ui) for ui in u], dtype=float)
+        b = np.array([q.sample(ui) for ui in u], dtype=float)
+        fin = np.isfinite(a) & (np.abs(a) < 300)
+        pa = np.array([p.prior(v) for v in a[fin]], dtype=float)
+        pb = np.array([q.prior(v) for v in a[fin]], dtype=float)
+    ctx.check('clone:same-map', bool(np.array_equal(a, b, equal_nan=True)) and bool(np.array_equal(pa, pb, equal_nan=True)),
+              how=how, cls=type(p).__name__, sample_first=[float(a[1]), float(b[1])] if len(a) > 1 else None,
+              prior_first=[float(pa[0]), float(pb[0])] if len(pa) else None)
+    ctx.close('clone:boundaries', q.boundaries(), p.boundaries(), 0.0, how=how)
 
 
 def norm_cdf(z):
@@ -222,6 +248,8 @@ def wl_gaussian(ctx, rng):
     else:
         ctx.check('prior-mode', p.priorMode is PriorMode.LINEAR)
         ctx.check('prior-identity', all(p.prior(v) == v for v in x[inner]))
+    if rng.random() < 0.5:
+        judge_clone(ctx, rng, p, u)
     ctx.sig(type(p).__name__, mean, std)
     ctx.sample({'class': type(p).__name__, 'mean': mean, 'std': std, 'u': u[1:5], 'x': x[1:5]})
 
